@@ -16,7 +16,7 @@
           overwritten, users/cdb unreadable, stat error in qmail-getpw, lookup errors ("E name").
   verdict TLC evaluates Verdict (spec/Users.tla) on every delivery record (spec/UsersRec.tla)
 """
-import sys, os, json, argparse, shutil, struct, threading, itertools, re, time
+import sys, os, json, argparse, shutil, struct, threading, itertools, re, time, subprocess
 sys.path.insert(0, os.path.join(os.path.dirname(os.path.abspath(__file__)), "..", "lib"))
 from vlib import *
 import sandbox, sessions
@@ -33,10 +33,10 @@ UID0 = 8000
 # universes for the real code
 # ---------------------------------------------------------------------------------------------------------------
 # accounts: name -> (uid, gid)
-N31 = b"u" * 31
-N32 = b"v" * 32
+N31 = b"u" * 31       # the longest account name qmail-getpw(8) defines ("shorter than 32 characters")
+N32 = b"v" * 32       # only ever a local part: accounts with such names are outside the documents and are not generated
 ACCOUNTS = {b"joe": (8001, 9001), b"joe-list": (8002, 9002), b"bob": (8003, 9003), b"j": (8004, 9004), b"toor": (0, 0),
-            b"Carl": (8006, 9006), N31: (8007, 9007), N32: (8008, 9008), b"jo": (0, 9009), b"ann": (8010, 0),
+            b"Carl": (8006, 9006), N31: (8007, 9007), b"jo": (0, 9009), b"ann": (8010, 0),
             b"afo": (8011, 9011), b"ad": (8012, 9012), b"info": (8013, 9013)}
 STATES = ("own", "oth", "none", "hid")
 
@@ -92,8 +92,9 @@ class Job:
     """One configuration (table in force, table offered last if malformed, passwd database) + the local parts
     to deliver to + optionally a list of damage variants of users/cdb (each variant = one round of deliveries)."""
     def __init__(self, kind, tab, accounts=(), errs=(), alias="ok", locals_=(), mal=None, after_dot=(), damage=None, trace=True,
-                 statfault=False, part=None):
+                 statfault=False, part=None, pw2u=False):
         self.kind = kind
+        self.pw2u = pw2u                # the table is what the real qmail-pw2u prints for the passwd database
         self.part = part                # (i, n): this job handles every n-th damage variant starting at i
         self.tab = tab                  # list of entries, or None = no users/cdb at all
         self.accounts = list(accounts)  # (name, state)
@@ -114,7 +115,7 @@ class Job:
                 "accounts": [[n.decode("latin-1"), s] for n, s in self.accounts], "errs": [n.decode("latin-1") for n in self.errs],
                 "alias": self.alias, "locals": [l.decode("latin-1") for l in self.locals],
                 "mal": None if self.mal is None else [self.mal[0], [ej(e) for e in self.mal[1]], [ej(e) for e in self.mal[2]]],
-                "after_dot": [ej(e) for e in self.after_dot], "damage": self.damage, "trace": self.trace, "statfault": self.statfault, "part": self.part}
+                "after_dot": [ej(e) for e in self.after_dot], "damage": self.damage, "trace": self.trace, "statfault": self.statfault, "part": self.part, "pw2u": self.pw2u}
 
     @staticmethod
     def from_json(d):
@@ -123,7 +124,7 @@ class Job:
         return Job(d["kind"], None if d["tab"] is None else [je(e) for e in d["tab"]], [(U.B(n), s) for n, s in d["accounts"]],
                    [U.B(n) for n in d["errs"]], d["alias"], [U.B(l) for l in d["locals"]],
                    None if d["mal"] is None else (d["mal"][0], [je(e) for e in d["mal"][1]], [je(e) for e in d["mal"][2]]),
-                   [je(e) for e in d["after_dot"]], d["damage"], d["trace"], d["statfault"], None)
+                   [je(e) for e in d["after_dot"]], d["damage"], d["trace"], d["statfault"], None, d.get("pw2u", False))
 
 
 MAL_KINDS = ("nocolon7", "nodot", "nul", "noloc", "fewfields", "partial", "blank", "nocolon")
@@ -159,7 +160,7 @@ def gen_jobs(rng, thorough):
         for sl in ("absent", "own", "oth", "err"):
             for sb in ("absent", "own"):
                 for al in ("ok", "absent", "err"):
-                    acc = [(b"Carl", "own"), (N31, "own"), (N32, "own"), (b"jo", "own"), (b"ann", "own"), (b"j", "none")]
+                    acc = [(b"Carl", "own"), (N31, "own"), (b"jo", "own"), (b"ann", "own"), (b"j", "none")]
                     errs = []
                     for name, st in ((b"joe", sj), (b"joe-list", sl)):
                         if st == "err":
@@ -190,7 +191,7 @@ def gen_jobs(rng, thorough):
             r = rng.random()
             if r < 0.45:
                 acc.append((name, rng.choice(["own", "own", "own", "oth", "none", "hid"])))
-            elif r < 0.5 and name not in (N31, N32):
+            elif r < 0.5 and name != N31:
                 errs.append(name)
         return acc, errs
 
@@ -203,6 +204,11 @@ def gen_jobs(rng, thorough):
         rng.shuffle(locs)
         jobs.append(Job("random", tab, acc, errs, rng.choice(["ok", "ok", "ok", "absent", "owned"]), locs[:rng.choice([30, 60, 100])],
                         trace=rng.random() < 0.3))
+
+    # (3b) tables printed by the real qmail-pw2u for random databases (alias owns its home, as pw2u requires)
+    for _ in range(40 if thorough else 8):
+        acc, _e = rand_db()
+        jobs.append(Job("pw2u", None, acc, [], "owned", PW_LOCALS + [b"afo", b"ad-x", b"info-", b"INFO"], trace=False, pw2u=True))
 
     # (4) keys that collide in the 256-way table, in the slot, and in all 32 bits of the hash
     for a, b in FULL_COLLISIONS:
@@ -331,6 +337,8 @@ class Runner:
 
     # ---- private users/ directory per worker through a mount name space (accelerator); fallback: serial
     def probe_ns(self):
+        if os.environ.get("VERIF_C11_NO_NS"):
+            return False
         d = self.ck.scratch.sub("nsprobe")
         with open(os.path.join(d, "mark"), "w") as f:
             f.write("x")
@@ -401,9 +409,27 @@ class Runner:
         # ---- compile
         cdbp = os.path.join(priv, "cdb")
         rc, mal, chg = 0, 0, 0
+        raw = None
+        if job.pw2u:
+            # tables in the shape the package's own generator gives them: qmail-pw2u is used as a source of tables only,
+            # what it prints is parsed here and is then "the source table" like any other
+            text = b"".join(b"%s:x:%d:%d::%s:/bin/sh\n" % (bytes(x["name"]), x["uid"], x["gid"], bytes(x["home"])) for x in dbj)
+            r = run(self.cmd(priv, [tree.bin("qmail-pw2u")]), input=text, env=env0, cwd=tree.root, stderr=subprocess.DEVNULL)
+            if r.returncode != 0:
+                shutil.rmtree(w, ignore_errors=True)
+                return None, []
+            raw, tab = r.stdout, []
+            for line in raw.split(b"\n"):
+                if line == b".":
+                    break
+                f = line.split(b":")
+                if line[:1] not in (b"=", b"+") or len(f) != 8 or f[7] != b"" or not f[2].isdigit() or not f[3].isdigit():
+                    raise Infra("cannot parse qmail-pw2u output line %r" % line)
+                tab.append(U.entry(line[:1] == b"+", f[0][1:], f[1], int(f[2]), int(f[3]), f[4], f[5], f[6]))
+            job.tab = tab
         if job.tab is not None:
             with open(os.path.join(priv, "assign"), "wb") as f:
-                f.write(U.render_assign(job.tab) + b"".join(U.render_line(e) for e in job.after_dot))
+                f.write(raw if raw is not None else U.render_assign(job.tab) + b"".join(U.render_line(e) for e in job.after_dot))
             r = run(self.cmd(priv, [tree.bin("qmail-newu")]), env=env0, cwd=tree.root)
             rc = r.returncode
         if job.mal is not None and rc == 0:
@@ -423,6 +449,8 @@ class Runner:
             rounds = damage_variants(data, job.damage, self.thorough, None)
             if job.damage == "all-catchall" and not self.thorough:
                 rounds = rounds[::3]
+            if not self.ns:
+                rounds = rounds[::4]        # serial fall-back: keep the run within its time budget
             if job.part:
                 rounds = rounds[job.part[0]::job.part[1]]
             if getattr(job, "only", None) is not None:
@@ -430,7 +458,10 @@ class Runner:
         elif job.damage in ("dir", "loop"):
             rounds = [(1, job.damage, None)]
         recs = []
+        stop = False
         for (dmg, desc, data) in rounds:
+            if stop:
+                break
             if data is not None:
                 with open(cdbp, "wb") as f:
                     f.write(data)
@@ -452,42 +483,67 @@ class Runner:
             for k in range(0, len(job.locals), 100):
                 batch = job.locals[k:k + 100]
                 dels = [(b"t%d@s.test" % (k + i), l + b"@" + DOM) for i, l in enumerate(batch)]
-                reps = run_lspawn_cmd(self.cmd(priv, [tree.bin("qmail-lspawn"), DFLT]), tree.root, env, dels)
+                reps, hung = run_lspawn_cmd(self.cmd(priv, [tree.bin("qmail-lspawn"), DFLT]), tree.root, env, dels)
+                if hung:
+                    # a delivery that is never reported is neither the answer nor a deferral: its record (no report, no
+                    # start) goes to the monitor like any other; the rest of this job is skipped to bound the run time
+                    if dmg == 0 and not job.statfault:
+                        raise Infra("qmail-lspawn hung on an intact configuration (%s)" % cfg_key(cfg, job))
+                    desc += ",hung"
+                    stop = True
                 st = U.collect_standin(rec)
                 per = {}
                 if trace:
                     per, _ = U.id_events(sandbox.read_trace(trace))
                     open(trace, "w").close()
+                got = [st.pop(dels[i][0], []) for i in range(len(batch))]
+                # an agent whose arguments no longer carry the sender where the documented interface has it cannot be
+                # matched by tag: give such records to the deliveries that were reported without a recorded start
+                left = [x for v in st.values() for x in v]
+                for i in range(len(batch)):
+                    if left and not got[i] and reps[i] is not None and reps[i][:1] == b"K" and batch[i] != b"":
+                        got[i] = [left.pop(0)]
+                if left:
+                    raise Infra("stand-in records that belong to no delivery: %r" % left[:2])
                 for i, l in enumerate(batch):
-                    s = st.pop(dels[i][0], [])
+                    s = got[i]
                     rep = reps[i]
                     r = {"local": list(l), "dom": list(DOM), "sender": list(dels[i][0]), "dflt": list(DFLT),
                          "dmg": 1 if (job.statfault and dmg == 0) else dmg, "rep": rep[0] if rep else 0, "nex": len(s), "argv": [], "ids": [], "grp": [],
                          "tr": 0, "ev": [], "_desc": desc, "_rep": (rep or b"")[:80].decode("latin-1")}
                     if s:
                         r["argv"], r["ids"], r["grp"] = s[0]["argv"][1:], s[0]["ids"], s[0]["groups"]
-                        if trace and s[0]["pid"] in per:
-                            r["tr"], r["ev"] = 1, per[s[0]["pid"]]
+                        ev = per.get(s[0]["pid"], [])
+                        # the order of the identity calls is judged only when the program makes them through the calls the
+                        # shim sees (a setuid was recorded); otherwise the agent's own credentials are the observation
+                        if trace and any(e["c"] == 3 for e in ev):
+                            r["tr"], r["ev"] = 1, ev
                     recs.append(r)
-                if st:
-                    raise Infra("stand-in records that belong to no delivery: %r" % list(st)[:3])
         shutil.rmtree(w, ignore_errors=True)
         return cfg, recs
 
 
-def run_lspawn_cmd(argv, cwd, env, deliveries, timeout=120):
-    """U.run_lspawn with a full command line (the binary may be wrapped)."""
-    import subprocess
+def run_lspawn_cmd(argv, cwd, env, deliveries, timeout=40):
+    """One qmail-lspawn process (the binary may be wrapped): all commands are written at once, then descriptor 0 is
+    closed; qmail-lspawn exits when every delivery has been reported.  Returns (reports, hung): report texts (first
+    byte = class) or None where no report came; hung = the process had to be killed."""
     inp = b"".join(bytes([k + 1]) + b"0/1234\0" + s + b"\0" + r + b"\0" for k, (s, r) in enumerate(deliveries))
-    p = subprocess.Popen(argv, stdin=subprocess.PIPE, stdout=subprocess.PIPE, stderr=subprocess.PIPE, env=env, cwd=cwd)
+    p = subprocess.Popen(argv, stdin=subprocess.PIPE, stdout=subprocess.PIPE, stderr=subprocess.PIPE, env=env, cwd=cwd, start_new_session=True)
+    hung = False
     try:
         out, err = p.communicate(inp, timeout=timeout)
     except subprocess.TimeoutExpired:
-        p.kill()
+        hung = True
+        try:
+            os.killpg(p.pid, 9)
+        except OSError:
+            p.kill()
         out, err = p.communicate()
-        raise Infra("qmail-lspawn hung: %r %r" % (out[:200], err[:200]))
+    if hung:
+        # cut an unfinished report off
+        out = out[:out.rfind(b"\0") + 1] if len(out) > 1 else out[:1]
     conc, reps = U.parse_reports(out)
-    if conc is None:
+    if conc is None and not hung:
         raise Infra("qmail-lspawn wrote nothing (exit %s): %r" % (p.returncode, err[:300]))
     res = []
     for k in range(len(deliveries)):
@@ -497,7 +553,7 @@ def run_lspawn_cmd(argv, cwd, env, deliveries, timeout=120):
         if r and U.MARK_FAIL in r[0]:
             raise Infra("the stand-in qmail-local failed: %r" % r[0])
         res.append(r[0] if r else None)
-    return res
+    return res, hung
 
 
 def esc(b, cap=40):
@@ -536,14 +592,21 @@ def main():
     # ---- model runs (in the background while the real code is built and run)
     models = [("UsersLspawn(tables,MaxLines=%d,MaxLocal=3)" % (3 if thorough else 2), model_cfg(ck.scratch.path("m1.cfg"), "tables", 3 if thorough else 2, 3, 4)),
               ("UsersLspawn(passwd,MaxLocal=%d)" % (4 if thorough else 3), model_cfg(ck.scratch.path("m2.cfg"), "passwd", 1, 4 if thorough else 3, 4))]
+    asfound = model_cfg(ck.scratch.path("m3.cfg"), "tables", 2, 3, 4)
+    with open(asfound) as f:
+        txt = f.read().replace("WcAsWritten = FALSE", "WcAsWritten = TRUE")
+    with open(asfound, "w") as f:
+        f.write(txt)
     mres = {}
 
     def run_model(m):
         name, cfg = m
-        mres[name] = tlc("UsersLspawn", cfg, workers=4, timeout=2400, heap="6g", coverage=True, extra=("-noGenerateSpecTE",))
+        # explicit metadir: vlib.tlc() derives its default from pid + milliseconds, which collides between threads
+        mres[name] = tlc("UsersLspawn", cfg, workers=2 if name == "as-found" else 4, timeout=2400, heap="6g", coverage=(name != "as-found"),
+                         extra=("-noGenerateSpecTE",), metadir=ck.scratch.path("tlcmeta-" + os.path.basename(cfg)))
     threads = []
     if not a.replay:
-        for m in models:
+        for m in models + [("as-found", asfound)]:
             t = threading.Thread(target=run_model, args=(m,))
             t.start()
             threads.append(t)
@@ -555,7 +618,7 @@ def main():
         case = json.load(open(a.replay))["case"]
         job = Job.from_json(case["job"])
         job.locals = [U.B(case["local"])]
-        job.only = case.get("variant") or None
+        job.only = (case.get("variant") or "").split(",")[0] or None
         jobs = [job]
     else:
         jobs = gen_jobs(ck.rng, thorough)
@@ -565,6 +628,8 @@ def main():
 
     cfgs, recs, owner = [], [], []
     for job, (cfg, rs) in zip(jobs, results):
+        if cfg is None:
+            continue
         cfgs.append(cfg)
         for r in rs:
             r["c"] = len(cfgs)
@@ -592,6 +657,12 @@ def main():
             for act, (taken, _) in res.coverage.items():
                 reached[act] = reached.get(act, 0) + taken
     if not a.replay:
+        # sensitivity of the specification itself: with qmail-newu's wildcard bytes recorded as written (the defect repaired
+        # in /repo by "fix: qmail-newu: record the lower-cased last byte of a wildcard entry") TLC must reject the model
+        af = need_ok(mres["as-found"], "as-found model")
+        if "SearchIsAssign" not in af.violated:
+            raise Infra("the as-found variant of the model (WcAsWritten) is no longer rejected: %s" % af.out[-1500:])
+        ck.cov["model_rejects_as_found_qmail_newu"] = True
         dead = [x for x in NEED_ACTIONS if not reached.get(x)]
         if dead:
             raise Infra("model actions never taken (vacuous model): %s" % dead)
@@ -608,9 +679,15 @@ def main():
     ck.cov["configurations"] = len(cfgs)
     ck.cov["with_identity_call_trace"] = sum(1 for r in recs if r["tr"])
     ck.cov["parallel_name_spaces"] = bool(rn.ns)
-    for r in recs[:3] + recs[len(recs) // 2:len(recs) // 2 + 2] + recs[-1:]:
-        ck.sample({"local": bytes(r["local"]).decode("latin-1"), "report": r["_rep"], "argv": [bytes(x).decode("latin-1") for x in r["argv"]],
-                   "ids": r["ids"], "groups": r["grp"], "identity_calls": r["ev"], "damage": r["_desc"], "config": cfgs[r["c"] - 1]["tab"][:3]})
+    seen_kind = set()
+    for r, job in zip(recs, owner):
+        tagk = (job.kind, r["nex"] > 0)
+        if tagk in seen_kind or len(r["local"]) < 2:
+            continue
+        seen_kind.add(tagk)
+        ck.sample({"kind": job.kind, "local": bytes(r["local"]).decode("latin-1"), "report": r["_rep"], "argv": [bytes(x).decode("latin-1") for x in r["argv"]],
+                   "ids": r["ids"], "groups": r["grp"], "identity_calls": [[e["c"], e["a"], e["ok"]] for e in r["ev"]], "damage": r["_desc"],
+                   "table": [("+" if e["w"] else "=") + bytes(e["loc"]).decode("latin-1") for e in cfgs[r["c"] - 1]["tab"][:8]]}, cap=16)
     ck.cov["rule"] = ("every table of <= %d lines over 8 entries (simple/wildcard/duplicate/overlapping/mixed case/uid 0) x 20 local parts; 144 passwd databases "
                       "(account absent/owner/not owner/home missing/home hidden/lookup error, alias present/absent/error) x 33 local parts x {no cdb, empty table, one wildcard}; "
                       "seeded random tables x databases with local parts derived from their keys and account names (case variants, extensions, near misses); "
